@@ -1533,6 +1533,11 @@ def check_alignment(prog, rep, m, pubname, entry):
                         vq = [p_ for p_, a_ in b_.items() if a_ == vp]
                         if len(zq) == 1 and len(vq) == 1:
                             for c2 in ast.walk(t.node):
+                                if isinstance(c2, ast.Call):
+                                    t2 = prog.resolve_callable(t, t.module, c2.func)
+                                    if isinstance(t2, Func) and t2.name == 'validate_arrays' and [norm(a) for a in c2.args[:2]] == [zq[0], vq[0]] and \
+                                            c2 in [x for s2 in t.node.body for x in ast.walk(s2) if not isinstance(s2, ast.If)]:
+                                        return True          # validate_arrays(zones, values) at the helper's top level
                                 if isinstance(c2, ast.Call) and short(c2) == 'rechunk' and vq[0] in norm(c2.func.value) and \
                                         any(isinstance(x, ast.Name) and x.id in ({zq[0]} | {n_.targets[0].id for n_ in ast.walk(t.node)
                                             if isinstance(n_, ast.Assign) and isinstance(n_.targets[0], ast.Name) and zq[0] + '.chunks' in norm(n_.value)} |
